@@ -115,6 +115,14 @@ class Repo:
         if not os.environ.get("SA_NO_ALPHA"):
             from .alpha import load_reference, undo_pure_renames
             ref = load_reference()
+            specials = {k: ref.pop(k) for k in [k for k in ref if k.startswith("__")]}
+            if specials:
+                from .align import recover_attribute_renames, recover_module_name_renames
+                trees = {m.name: m.tree for m in self.modules.values()}
+                for a, b in sorted(recover_attribute_renames(trees, specials.get("__attrs__", {})).items()):
+                    self.renames_undone.append(f"attribute .{a} -> .{b}")
+                for a, b in sorted(recover_module_name_renames(trees, specials.get("__modnames__", {})).items()):
+                    self.renames_undone.append(f"module-level name {a} -> {b}")
             self._undo_function_renames(ref)
             if ref and not os.environ.get("SA_NO_INLINE"):
                 from .inline import undo_extractions
